@@ -29,11 +29,60 @@ def rstr(rng: random.Random, alphabet: str, lo: int = 0, hi: int = 8) -> str:
     return ''.join(rng.choice(alphabet) for _ in range(rng.randint(lo, hi)))
 
 
-def pick_str(rng: random.Random, alphabet: str, specials: list[str], lo: int = 1, hi: int = 8) -> str:
-    """Mostly short random strings over `alphabet`, sometimes one of the special (tricky but representable) strings."""
-    if specials and rng.random() < 0.25:
-        return rng.choice(specials)
-    return rstr(rng, alphabet, lo, hi)
+def collide(rng: random.Random, s: str, case_ok: bool = True) -> str:
+    """A string that differs from `s` but collides with it under a normalisation somebody might apply to a key: letter case
+    (swapcase / upper / lower / title), surrounding or inner whitespace (strip, split-join).  May return `s` itself when the
+    transformation is the identity on it (callers that need distinct names check that anyway)."""
+    ops = ['lead', 'trail', 'inner']
+    if case_ok:
+        ops += ['swap', 'upper', 'lower', 'title', 'swap', 'first']
+    op = rng.choice(ops)
+    if op == 'lead':
+        return ' ' + s
+    if op == 'trail':
+        return s + ' '
+    if op == 'inner':
+        i = s.find(' ')
+        return s[:i] + ' ' + s[i:] if i >= 0 else s + '  '
+    if op == 'swap':
+        return s.swapcase()
+    if op == 'upper':
+        return s.upper()
+    if op == 'lower':
+        return s.lower()
+    if op == 'first':
+        return s[:1].swapcase() + s[1:]
+    return s.title()
+
+
+def new_bag(rng: random.Random) -> None:
+    """Start a new *name bag* on the generator: the strings handed out by `pick_str` for one spec.  Later picks re-use them
+    (the identical string: equal values in several places of one file) or derive a colliding variant (`collide`), so that every
+    table a writer keys by a name, or by an object that compares by name, sees keys that are distinct but equal after
+    casefold / strip, and keys that are equal."""
+    rng._c20_bag = []          # type: ignore[attr-defined]
+
+
+def pick_str(rng: random.Random, alphabet: str, specials: list[str], lo: int = 1, hi: int = 8, case_ok: bool = True) -> str:
+    """Mostly short random strings over `alphabet`, sometimes one of the special (tricky but representable) strings, sometimes a
+    string already used in this spec or a variant of one that collides with it under casefold / strip (`case_ok=False`: only
+    whitespace variants, for names the format itself compares ignoring case)."""
+    bag = getattr(rng, '_c20_bag', None)
+    r = rng.random()
+    out = None
+    if bag and r < 0.22 and lo >= 1:
+        base = rng.choice(bag)
+        cand = base if r < 0.04 else collide(rng, base, case_ok)
+        if lo <= len(cand) <= hi + 4 and all(c in alphabet for c in cand):
+            out = cand
+    if out is None:
+        if specials and rng.random() < 0.25:
+            out = rng.choice(specials)
+        else:
+            out = rstr(rng, alphabet, lo, hi)
+    if bag is not None and out and len(bag) < 40:
+        bag.append(out)
+    return out
 
 
 def diff_path(a: Any, b: Any, path: str = '') -> str | None:
@@ -192,6 +241,9 @@ def cmdseq_gen(rng: random.Random) -> dict:
     names: set[str] = set()
     for _ in range(rng.choice([0, 1, 1, 2, 3])):
         name = s(128)
+        if names and rng.random() < 0.5:
+            # the file is a dict keyed by the exact name: names that differ only in case / surrounding blanks are different sequences
+            name = collide(rng, rng.choice(sorted(names)))[:128]
         if name in names:
             continue
         names.add(name)
@@ -267,6 +319,7 @@ def _q64(rng: random.Random, lim: int = 64 * 200) -> float:
 
 
 def smd_gen(rng: random.Random) -> dict:
+    new_bag(rng)
     nb = rng.choice([1, 1, 2, 3, 5, 9])
     bones = []
     names: set[str] = set()
@@ -301,7 +354,9 @@ def smd_gen(rng: random.Random) -> dict:
         if mat == 'end':
             mat = 'end_'
         tris.append({'mat': mat, 'verts': verts})
-    return {'bones': bones, 'order': order, 'anim': anim, 'tris': tris}
+    # 'copy': the mesh is deep-copied before it is written, so frames, links and parents refer to Bone objects that are equal to
+    # the ones in Mesh.bones but not identical (Bone.__deepcopy__ makes a new object per reference)
+    return {'bones': bones, 'order': order, 'anim': anim, 'tris': tris, 'copy': rng.random() < 0.25}
 
 
 def smd_build(spec: dict):
@@ -338,7 +393,11 @@ def smd_build(spec: dict):
             mat = mat.replace('//', '/')
         mat = mat.strip('/ ') or 'm'            # the reader strips the line and trailing slashes
         tris.append(Triangle('end_' if mat == 'end' else mat, *vs[:3]))
-    return Mesh(bones, anim, tris)
+    mesh = Mesh(bones, anim, tris)
+    if spec.get('copy'):
+        import copy
+        mesh = copy.deepcopy(mesh)
+    return mesh
 
 
 def smd_write(mesh) -> bytes:
@@ -355,8 +414,8 @@ def smd_read(data: bytes):
 def smd_canon(mesh) -> Any:
     return {
         'bones': sorted([k, b.name, b.parent.name if b.parent is not None else None] for k, b in mesh.bones.items()),
-        'anim': {str(t): [[f.bone.name, list(f.position), list(f.rotation)] for f in fr]
-                 for t, fr in sorted(mesh.animation.items())},
+        'anim': [[t, [[f.bone.name, list(f.position), list(f.rotation)] for f in fr]]
+                 for t, fr in sorted(mesh.animation.items())],
         'tris': [[t.mat, [[list(v.pos), list(v.norm), v.tex_u, v.tex_v, [[b.name, w] for b, w in v.links]]
                           for v in t]] for t in mesh.triangles],
     }
@@ -410,8 +469,9 @@ def snd_gen(rng: random.Random) -> dict:
     chans = [c.name for c in S.Channel]
     sounds = []
     names: set[str] = set()
+    new_bag(rng)
     for _ in range(rng.choice([1, 1, 2, 3])):
-        nm = pick_str(rng, SND_ALPHA, ['Weapon_Pistol.Single', 'has space', 'a{b', '//x', 'x//y', '[flag]', '#inc', 'semi;colon'], 1, 10)
+        nm = pick_str(rng, SND_ALPHA, ['Weapon_Pistol.Single', 'has space', 'a{b', '//x', 'x//y', '[flag]', '#inc', 'semi;colon'], 1, 10, case_ok=False)
         if nm.casefold() in names:
             continue
         names.add(nm.casefold())
@@ -516,8 +576,9 @@ VMT_ALPHA = ''.join(c for c in PRINTABLE if c != '"')
 def vmt_gen(rng: random.Random) -> dict:
     params = []
     seen: set[str] = set()
+    new_bag(rng)
     for _ in range(rng.choice([0, 1, 2, 3, 5])):
-        nm = pick_str(rng, VMT_ALPHA, ['$basetexture', '$envmapmask', '%keywords', '$a b', '>=dx90?$x', '/slash', '#hash', '$x[0]'], 1, 8)
+        nm = pick_str(rng, VMT_ALPHA, ['$basetexture', '$envmapmask', '%keywords', '$a b', '>=dx90?$x', '/slash', '#hash', '$x[0]'], 1, 8, case_ok=False)
         if nm.casefold() in seen or not nm.strip():
             continue
         seen.add(nm.casefold())
@@ -578,7 +639,7 @@ def _pcf_opts(rng: random.Random) -> list:
     out = []
     seen: set[str] = set()
     for _ in range(rng.choice([0, 1, 2, 4])):
-        nm = pick_str(rng, PCF_ALPHA, ['max_particles', 'animation rate', 'Visibility Proxy Radius', 'color', 'radius'], 1, 10)
+        nm = pick_str(rng, PCF_ALPHA, ['max_particles', 'animation rate', 'Visibility Proxy Radius', 'color', 'radius'], 1, 10, case_ok=False)
         if nm.casefold() in seen or nm.casefold() in PCF_RESERVED:
             continue
         seen.add(nm.casefold())
@@ -602,8 +663,9 @@ def _pcf_opts(rng: random.Random) -> list:
 def pcf_gen(rng: random.Random) -> dict:
     systems = []
     seen: set[str] = set()
+    new_bag(rng)
     for _ in range(rng.choice([1, 1, 2, 3])):
-        nm = pick_str(rng, PCF_ALPHA, ['test_part', 'Explosion Core', 'UPPER'], 1, 10)
+        nm = pick_str(rng, PCF_ALPHA, ['test_part', 'Explosion Core', 'UPPER'], 1, 10, case_ok=False)
         if nm.casefold() in seen:
             continue
         seen.add(nm.casefold())
@@ -808,11 +870,21 @@ def _event(rng: random.Random, mode: str, flex_p: float) -> dict:
                 'name': pick_str(rng, CHO_ALPHA, ['lid_raiser', 'jaw drop'], 1, 6), 'active': rng.random() < 0.7,
                 'min': f32(rng.choice([0.0, 0.0, rng.uniform(-1, 0)])), 'max': f32(rng.choice([1.0, 1.0, rng.uniform(0, 2)])),
                 'mag': _samples(rng, mode, True), 'dir?': _samples(rng, mode, True) if rng.random() < 0.4 else None,
+                'left?': _edge(rng, mode), 'right?': _edge(rng, mode),          # text only (None in binary mode)
             })
+        if mode == 'text' and rng.random() < 0.4:
+            ev['def_curve'] = _curve_type(rng)      # written as defaultcurvetype=... on the flexanimations line; samples of that type omit it
+            for f in ev['flex']:
+                for smp in f['mag'] + (f['dir?'] or []):
+                    if rng.random() < 0.5:
+                        smp['curve'] = list(ev['def_curve'])        # a sample of exactly the default type: written without a type
     return ev
 
 
-def scene_gen(rng: random.Random, mode: str, flex_p: float = 0.15) -> dict:
+def scene_gen(rng: random.Random, mode: str, flex_p: float = 0.15, bag: bool = True) -> dict:
+    if bag:
+        new_bag(rng)
+
     def evs(nmax):
         return [_event(rng, mode, flex_p) for _ in range(rng.choice([0, 1, 1, 2, nmax]))]
     actors = []
@@ -873,7 +945,9 @@ def _mk_event(e: dict):
         absolute_playback_tags=[C.AbsoluteTag(t[0], _clamp01(t[1])) for t in e['abs_play']],
         absolute_shifted_tags=[C.AbsoluteTag(t[0], _clamp01(t[1])) for t in e['abs_shift']],
         flex_anim_tracks=[C.FlexAnimTrack(name=f['name'], active=f['active'], min=f['min'], max=f['max'], mag_track=_mk_samples(f['mag']),
-                                          dir_track=_mk_samples(f['dir?']) if f['dir?'] is not None else None) for f in e['flex']],
+                                          dir_track=_mk_samples(f['dir?']) if f['dir?'] is not None else None,
+                                          left=_mk_edge(f.get('left?')), right=_mk_edge(f.get('right?'))) for f in e['flex']],
+        default_curve_type=_ct(e.get('def_curve') or [0, 0]),
         pitch=max(-100, min(100, e['pitch'])), yaw=max(-100, min(100, e['yaw'])),
     )
     k = e['kind']
@@ -941,12 +1015,13 @@ def scene_canon(sc) -> Any:
 def image_gen(rng: random.Random) -> dict:
     entries = []
     names: set[str] = set()
+    new_bag(rng)        # one bag for the whole image: the scenes share one string pool
     for _ in range(rng.choice([0, 1, 2, 3, 5])):
         nm = rng.choice(['scenes/', 'SCENES\\', '', 'scenes/npc/']) + rstr(rng, SAFE_WORD, 1, 8) + '.vcd'
         if nm.lower() in names:
             continue
         names.add(nm.lower())
-        entries.append({'filename': nm, 'scene': scene_gen(rng, 'binary', flex_p=0.1)})
+        entries.append({'filename': nm, 'scene': scene_gen(rng, 'binary', flex_p=0.1, bag=False)})
     return {'version': rng.choice([2, 3]), 'entries': entries}
 
 
@@ -1013,34 +1088,98 @@ FORMATS = {
 }
 
 
+class ImplTimeout(Exception):
+    """A call into the implementation did not return within its time limit (treated as a failing input, never as slowness of the
+    check: the limit is more than a hundred times what the slowest call takes on a loaded machine)."""
+
+
+IMPL_LIMIT_S = 60.0
+IMPL_LIMIT_AFTER_FIRST_S = 6.0      # once a call has hung, the next hanging inputs cost less
+TIMEOUTS = [0]                       # number of ImplTimeout raised so far in this process
+
+
+def limited(fn: Callable, *args: Any, seconds: float | None = None) -> Any:
+    """fn(*args) under an interval timer (main thread only; elsewhere it is a plain call): a fault that makes a writer or reader
+    loop forever (`while todo:` without progress, a tokenizer that does not advance) ends as ImplTimeout instead of a hung check."""
+    import signal
+    import threading
+    import time
+    if threading.current_thread() is not threading.main_thread():
+        return fn(*args)
+    if seconds is None:
+        seconds = IMPL_LIMIT_S if TIMEOUTS[0] == 0 else IMPL_LIMIT_AFTER_FIRST_S
+
+    def on_alarm(signum, frame):
+        TIMEOUTS[0] += 1
+        raise ImplTimeout(f'{getattr(fn, "__name__", "call")} did not return within {seconds:.0f} s')
+    old = signal.signal(signal.SIGALRM, on_alarm)
+    outer_left, _ = signal.setitimer(signal.ITIMER_REAL, seconds)      # nests: an outer limit is re-armed with what is left of it
+    t0 = time.monotonic()
+    try:
+        return fn(*args)
+    finally:
+        signal.setitimer(signal.ITIMER_REAL, 0)
+        signal.signal(signal.SIGALRM, old)
+        if outer_left > 0:
+            signal.setitimer(signal.ITIMER_REAL, max(0.05, outer_left - (time.monotonic() - t0)))
+
+
 def roundtrip(fmt: Fmt, spec: Any) -> tuple[str, str, Any] | None:
     """Run write -> read -> compare -> write again on one spec.  Returns None if the property holds, otherwise
     (stage, detail, info) where stage is one of build-error / write-error / read-error / value-diff / rewrite-error /
     regen-diff and detail names the exception type or the first differing field."""
     try:
-        obj = fmt.build(spec)
-        want = fmt.canon(obj)
+        obj = limited(fmt.build, spec)
+        want = limited(fmt.canon, obj)
+    except ImplTimeout as e:
+        return ('write-error', 'ImplTimeout', 'building the value: ' + str(e))
     except Exception as e:   # the spec is outside what the constructors accept: not a finding
         return ('build-error', type(e).__name__, repr(e)[:300])
     try:
-        out1 = fmt.write(obj)
+        out1 = limited(fmt.write, obj)
     except Exception as e:
         return ('write-error', type(e).__name__, repr(e)[:300])
     try:
-        obj2 = fmt.read(out1)
-        got = fmt.canon(obj2)
+        obj2 = limited(fmt.read, out1)
+        got = limited(fmt.canon, obj2)
     except Exception as e:
         return ('read-error', type(e).__name__, repr(e)[:300])
     d = diff_path(want, got)
     if d is not None:
         return ('value-diff', d, {'first_difference_at': d})
     try:
-        out2 = fmt.write(obj2)
+        out2 = limited(fmt.write, obj2)
     except Exception as e:
         return ('rewrite-error', type(e).__name__, repr(e)[:300])
     if out1 != out2:
         n = next((i for i, (a, b) in enumerate(zip(out1, out2)) if a != b), min(len(out1), len(out2)))
         return ('regen-diff', 'bytes', {'first_difference_offset': n, 'first': repr(out1[max(0, n - 30):n + 30]), 'second': repr(out2[max(0, n - 30):n + 30])})
+    return None
+
+
+def brace_balance(fmt: Fmt, spec: Any) -> tuple[str, str, Any] | None:
+    """Text formats: the written file must be well-bracketed at token level (braces inside quoted strings do not count) -- checked with
+    the tokenizer alone, independently of the format's parser (which may stop early, or not implement a block)."""
+    from srctools.tokenizer import Tokenizer, Token, TokenSyntaxError
+    try:
+        text = limited(fmt.write, limited(fmt.build, spec))
+    except Exception:
+        return None                 # reported by the round trip
+    if not isinstance(text, str):
+        return None
+    depth = 0
+    try:
+        for tok, _ in Tokenizer(text, allow_escapes=fmt.name != 'vmt'):
+            if tok is Token.BRACE_OPEN:
+                depth += 1
+            elif tok is Token.BRACE_CLOSE:
+                depth -= 1
+                if depth < 0:
+                    return ('unbalanced-braces', 'closed-too-often', {'written': text[-400:]})
+    except TokenSyntaxError:
+        return None                 # reported by the round trip
+    if depth != 0:
+        return ('unbalanced-braces', 'never-closed', {'open_blocks_at_end_of_file': depth, 'written': text[-400:]})
     return None
 
 
@@ -1141,9 +1280,11 @@ def observe(obj: Any, only: tuple[str, str] | None = None) -> list[tuple[str, st
 def observer_check(fmt: 'Fmt', spec: Any) -> tuple[str, str, Any] | None:
     """None if looking at the value never changes what is written; else (stage, detail, info):
     observer-effect:<Class.prop>:built / :read-back, or same-object-rewrite-diff."""
+    if TIMEOUTS[0] >= 3:
+        return None                       # a writer / reader hangs: reported by the plain round trip, do not pile up waiting time
     try:
-        a = fmt.build(spec)
-        out_a = fmt.write(a)
+        a = limited(fmt.build, spec)
+        out_a = limited(fmt.write, a)
     except Exception:
         return None                       # the plain round trip reports these
     try:
